@@ -174,7 +174,12 @@ func (s *CState) expiry(d time.Duration) int64 {
 		d = s.Def
 	}
 	if d > 0 {
-		return s.Now + int64(d)
+		e := s.Now + int64(d)
+		if e < s.Now {
+			// the instant is beyond what int64 nanoseconds can represent: such an entry never expires
+			return 0
+		}
+		return e
 	}
 	return 0
 }
